@@ -12,7 +12,7 @@ use std::{collections::BTreeMap, fs, path::{Path, PathBuf}};
 use common_lang_types::CurrentWorkingDirectory;
 use graphql_network_protocol::GraphQLAndJavascriptProfile;
 use intern::string_key::Intern;
-use isograph_compiler::{CompilerState, batch_compile::compile, update_sources, watch::{ChangedFileKind, SourceEventKind}};
+use isograph_compiler::{CompilerState, batch_compile::compile, update_sources, watch::{ChangedFileKind, SourceEventKind, verif_hooks::api_categorize_event}};
 use isograph_config::create_config;
 
 type P = GraphQLAndJavascriptProfile;
@@ -71,27 +71,36 @@ fn scenario(root: &Path, folder: &str, kind: usize) -> Result<(), String> {
     if !d0.is_empty() { return Err(format!("initial compile fails: {d0:?}")); }
     let dir = root.join("src").join(folder);
     let file = dir.join("Legacy.ts");
+    // the raw watcher events (notify kind + paths, as the Linux watcher delivers them) go through
+    // the REAL categorisation (hook api_categorize_event); events it drops are not delivered
+    let config = state.db.get_isograph_config().clone();
+    let cat = |raw: Vec<(&str, Vec<PathBuf>)>| -> Vec<(SourceEventKind, ChangedFileKind)> {
+        raw.into_iter().filter_map(|(k, paths)| api_categorize_event(&config, k, &paths)).collect()
+    };
+    let schema = root.join("schema.graphql");
+    let new_schema = "type Query {\n  hello: Int\n  world: String\n}\n";
     let (what, events): (&str, Vec<(SourceEventKind, ChangedFileKind)>) = match kind {
-        0 => { fs::remove_dir_all(&dir).unwrap(); ("remove folder", vec![(SourceEventKind::Remove(dir.clone()), ChangedFileKind::JavaScriptSourceFolder)]) }
-        1 => { let to = root.join("src/archive"); fs::rename(&dir, &to).unwrap(); ("rename folder", vec![(SourceEventKind::Rename((dir.clone(), to)), ChangedFileKind::JavaScriptSourceFolder)]) }
-        // a removed file no longer exists, so the watcher reports it as a folder
-        2 => { fs::remove_file(&file).unwrap(); ("remove file", vec![(SourceEventKind::Remove(file.clone()), ChangedFileKind::JavaScriptSourceFolder)]) }
-        3 => { let to = dir.join("Renamed.ts"); fs::rename(&file, &to).unwrap(); ("rename file", vec![(SourceEventKind::Rename((file.clone(), to)), ChangedFileKind::JavaScriptSourceFile)]) }
-        4 => { write(&file, &component("Legacy", "world")); ("modify file", vec![(SourceEventKind::CreateOrModify(file.clone()), ChangedFileKind::JavaScriptSourceFile)]) }
-        5 => { let f = dir.join("New.ts"); write(&f, &component("New", "world")); ("create file", vec![(SourceEventKind::CreateOrModify(f), ChangedFileKind::JavaScriptSourceFile)]) }
+        0 => { fs::remove_dir_all(&dir).unwrap(); ("remove folder", cat(vec![("remove", vec![dir.clone()])])) }
+        1 => { let to = root.join("src/archive"); fs::rename(&dir, &to).unwrap(); ("rename folder", cat(vec![("rename_both", vec![dir.clone(), to])])) }
+        2 => { fs::remove_file(&file).unwrap(); ("remove file", cat(vec![("remove", vec![file.clone()])])) }
+        3 => { let to = dir.join("Renamed.ts"); fs::rename(&file, &to).unwrap(); ("rename file", cat(vec![("rename_both", vec![file.clone(), to])])) }
+        4 => { write(&file, &component("Legacy", "world")); ("modify file", cat(vec![("modify_data", vec![file.clone()])])) }
+        5 => { let f = dir.join("New.ts"); write(&f, &component("New", "world")); ("create file", cat(vec![("create_file", vec![f])])) }
         // a tracked file loses its only literal / is emptied / gets a literal for ANOTHER field
-        6 => { write(&file, "export const nothing = 1;\n"); ("modify file: last literal removed", vec![(SourceEventKind::CreateOrModify(file.clone()), ChangedFileKind::JavaScriptSourceFile)]) }
-        7 => { write(&file, ""); ("modify file: emptied", vec![(SourceEventKind::CreateOrModify(file.clone()), ChangedFileKind::JavaScriptSourceFile)]) }
-        8 => { write(&file, &component("Legacy2", "world")); ("modify file: literal replaced by one for another field", vec![(SourceEventKind::CreateOrModify(file.clone()), ChangedFileKind::JavaScriptSourceFile)]) }
-        // the schema is edited in place / saved atomically (written to a temporary file that is
-        // renamed onto the schema path - what many editors do): hello becomes an Int
-        10 => { write(&root.join("schema.graphql"), "type Query {\n  hello: Int\n  world: String\n}\n");
-                ("schema modified in place", vec![(SourceEventKind::CreateOrModify(root.join("schema.graphql")), ChangedFileKind::Schema)]) }
-        11 => { let tmp = root.join("schema.graphql.tmp"); write(&tmp, "type Query {\n  hello: Int\n  world: String\n}\n"); fs::rename(&tmp, root.join("schema.graphql")).unwrap();
-                ("schema saved atomically (temporary file renamed onto it)", vec![(SourceEventKind::Rename((tmp, root.join("schema.graphql"))), ChangedFileKind::Schema)]) }
+        6 => { write(&file, "export const nothing = 1;\n"); ("modify file: last literal removed", cat(vec![("modify_data", vec![file.clone()])])) }
+        7 => { write(&file, ""); ("modify file: emptied", cat(vec![("modify_data", vec![file.clone()])])) }
+        8 => { write(&file, &component("Legacy2", "world")); ("modify file: literal replaced by one for another field", cat(vec![("modify_data", vec![file.clone()])])) }
         // a file without a literal is created, then gets one (two events in one batch)
-        _ => { let f = dir.join("Late.ts"); write(&f, "export const later = 1;\n"); let e1 = (SourceEventKind::CreateOrModify(f.clone()), ChangedFileKind::JavaScriptSourceFile);
-               write(&f, &component("Late", "world")); ("create file without a literal, then add one", vec![e1, (SourceEventKind::CreateOrModify(f), ChangedFileKind::JavaScriptSourceFile)]) }
+        9 => { let f = dir.join("Late.ts"); write(&f, "export const later = 1;\n"); let mut e = cat(vec![("create_file", vec![f.clone()])]);
+               write(&f, &component("Late", "world")); e.extend(cat(vec![("modify_data", vec![f])])); ("create file without a literal, then add one", e) }
+        // the schema is edited in place / saved atomically (a temporary file renamed onto it): hello becomes an Int
+        10 => { write(&schema, new_schema); ("schema modified in place", cat(vec![("modify_data", vec![schema.clone()])])) }
+        11 => { let tmp = root.join("schema.graphql.tmp"); write(&tmp, new_schema); fs::rename(&tmp, &schema).unwrap();
+                ("schema saved atomically (temporary file renamed onto it)", cat(vec![("rename_both", vec![tmp, schema.clone()])])) }
+        // things are moved OUT of what is watched: the rename's target is nothing the watcher cares about
+        12 => { let to = root.join("Legacy.moved.ts"); fs::rename(&file, &to).unwrap(); ("source file moved out of the project", cat(vec![("rename_both", vec![file.clone(), to])])) }
+        13 => { let to = root.join("moved_folder"); fs::rename(&dir, &to).unwrap(); ("folder moved out of the project", cat(vec![("rename_both", vec![dir.clone(), to])])) }
+        _ => unreachable!(),
     };
     if let Err(es) = update_sources(&mut state.db, &events) {
         return Err(format!("{what} in folder {folder:?}: update_sources failed (the watcher would stop): {:?}", es.iter().map(|e| e.to_string()).collect::<Vec<_>>()));
@@ -120,7 +129,7 @@ fn main() {
     let root = if root.is_absolute() { root } else { std::env::current_dir().unwrap().join(root) };
     let mut n = 0;
     for folder in ["pages_old", "pages.old", "api.v2", "a"] {
-        for kind in 0..13 {
+        for kind in 0..14 {
             n += 1;
             if let Err(m) = scenario(&root, folder, kind) {
                 println!("DIFFERENT: {m}");
